@@ -71,7 +71,11 @@ class Obl:
     def holds(self, fn=None, node=None, instance: str = "", construct=None):
         return self._mk(HOLDS, fn, node, instance, "", construct=construct)
 
-    def violated(self, fn=None, node=None, reason: str = "", instance: str = "", key: str = "", construct=None):
+    def violated(self, fn=None, node=None, reason: str = "", instance: str = "", key: str = "", construct=None, sure: bool = False):
+        # sure=True: the rule has positive evidence that does not depend on seeing the whole function (e.g. it looked
+        # INTO the helper it accuses): the two reticence policies below do not apply
+        if sure:
+            return self._mk(VIOLATED, fn, node, instance, reason, key=key, construct=construct)
         # A function that still delegates to a helper which does not exist on the pinned tree (and could not be
         # inlined, see normalize.py) is only partly visible to the rules: nothing is concluded against it.
         if isinstance(fn, FuncInfo):
